@@ -137,6 +137,9 @@ func c08Input(r *fw.Rand, codec string, mtu int) ([]byte, string) {
 			b = append(b, obus[k].Raw(k < len(obus)-1 || r.Bool())...)
 		}
 		return b, "valid"
+	case "vp8":
+		n := r.Pick(10, 11, mtu, 2*mtu, 3*mtu+1, r.Range(3, maxLen))
+		return gen.VP8Frame(r, maxI(n, 3), r.Chance(2, 3), r.Pick(-1, mtu-1, 2*(mtu-1), 2*(mtu-3), mtu-4)), "valid"
 	case "vp9":
 		h := c12Header(r, true)
 		hb, _ := h.Encode()
